@@ -210,8 +210,10 @@ EXTRA = [
     "def nada_main():\n    w = h(Integer(1))\n    return []\n",
     # a comprehension variable named like an enclosing variable of another type
     "from nada_dsl import *\ndef nada_main():\n    p = Party(name='P')\n    v = SecretInteger(Input(name='v', party=p))\n    steps = [v for v in range(3)]\n    w = steps[2]\n"
-    "    u = [[v + 1 for v in range(2)] for k in range(2)]\n    t = u[0][1]\n    return [Output(v, 'o', p)]\n",
-    "from nada_dsl import *\nv = 'text'\ndef nada_main():\n    p = Party(name='P')\n    xs = [v for v in range(2)]\n    y = xs[0] + 1\n    z = v\n    return []\n",
+    "    return [Output(v, 'o', p)]\n",
+    "from nada_dsl import *\ndef nada_main():\n    p = Party(name='P')\n    v = SecretInteger(Input(name='v', party=p))\n    k = 'text'\n"
+    "    u = [[v for v in range(2)] for k in range(2)]\n    t = u[0][1]\n    s = [k for k in range(2)]\n    return [Output(v, 'o', p)]\n",
+    "from nada_dsl import *\nv = 'text'\ndef nada_main():\n    p = Party(name='P')\n    xs = [v for v in range(2)]\n    y = xs[0]\n    z = v\n    return []\n",
     # the target of an inner loop is a variable that the enclosing loop's body reads
     "from nada_dsl import *\ndef nada_main():\n    p = Party(name='P')\n    j = Integer(1)\n    for i in range(2):\n        y = j\n        for j in range(1):\n            z = j\n    return []\n",
     "from nada_dsl import *\ndef nada_main():\n    p = Party(name='P')\n    a = SecretInteger(Input(name='a', party=p))\n    t = a\n    for i in range(2):\n        for k2 in range(2):\n"
